@@ -780,8 +780,8 @@ func c19Literals(c *Ctx, pool *Pool) {
 	c.Set("literal_wall_tlc_then_total", fmt.Sprintf("%.1fs %.1fs", tTLC.Seconds(), time.Since(t0).Seconds()))
 
 	c.Set("literal_rule", "TLC (MC_MatchLit) enumerates literal spellings (string bodies up to "+maxLit+" bytes over a \\ n t with valid escapes plus numeric / blank / upper-case strings, in both quotes; number spellings with leading and trailing zeros; true false null) x 8 case-list shapes "+
-		"(alone, only case, before / after a partner literal in the same case, in a later case, first / second element of an array pattern next to a binding, nested twice) x partner literals, against every subject "+
-		"(all strings up to "+maxSubj+" bytes over a \\ n t newline tab, every string literal body and its value, numeric strings, numbers, true false null, 5 arrays); expectation: JqMatchLit (value the literal denotes, `==` of DESIGN.md 3.4); "+
+		"(alone, only case, before / after a partner literal in the same case, in a later case, first / second element of an array pattern next to a binding, nested twice) x 2 (thorough 4) partner literals, against every subject "+
+		"(all strings up to "+maxSubj+" bytes over a \\ n t newline tab, every string literal body and its value, numeric strings, numbers, true false null, 3 (thorough 5) arrays); expectation: JqMatchLit (value the literal denotes, `==` of DESIGN.md 3.4); "+
 		"one real run per case list over all calm subjects as one JSON input array, one run per (case list, subject) where a runtime error is admitted")
 	c.Set("literal_eq_premise_runs", nEqRuns)
 	c.Set("literal_eq_premise_pairs", nEqPairs)
